@@ -527,11 +527,26 @@ fn efg_node(node: &T, ctx: &mut EfgCtx, acc1: f64, acc2: f64) {
                     format!("{} {}", efg_label(&label), p)
                 })
                 .collect();
+            // The reader orders the outcomes of a chance node by (label, probability), so the member
+            // nodes of a chance infoset may list them in different orders - also when labels repeat
+            // or are empty, where only the probabilities tell the outcomes apart. Half of the chance
+            // nodes are written in an order of their own (derived from a hash, not from the stream,
+            // so that older replay inputs decode to the same game).
+            let mut order: Vec<usize> = (0..outs.len()).collect();
+            let h0 = crate::stream::mix2(ctx.salt ^ 0x5eed_0c15, ctx.lines.len() as u64);
+            if ctx.opts.free_chance_labels && valid_weights && h0 & 1 == 0 {
+                let mut h = h0;
+                for i in (1..order.len()).rev() {
+                    h = crate::stream::mix2(h, i as u64);
+                    order.swap(i, (h >> 8) as usize % (i + 1));
+                }
+            }
+            let listed: Vec<&str> = order.iter().map(|i| probs[*i].as_str()).collect();
             let (outcome, d1, d2) = interior(ctx, false);
-            ctx.lines.push(format!("c {} {} {{ {} }} {}", efg_label(""), num, probs.join(" "), outcome));
+            ctx.lines.push(format!("c {} {} {{ {} }} {}", efg_label(""), num, listed.join(" "), outcome));
             ctx.meta.push(EfgLine { kind: 'c', player: 0, infoset: num, name: None, text: ctx.lines.last().unwrap().clone(), arity: outs.len(), outcome: 0, has_pays: false });
-            for (_, t) in outs {
-                efg_node(t, ctx, acc1 + d1, acc2 + d2);
+            for i in order {
+                efg_node(&outs[i].1, ctx, acc1 + d1, acc2 + d2);
             }
         }
         T::Player(p, name, acts) => {
